@@ -1,6 +1,7 @@
 (* Stream/Stable.v — a slice returned by Shift stays unchanged until at least as many bytes have been
    released with Free as had been shifted up to its end (C13). *)
 From Verif Require Import Common.Base Common.Tactics Stream.Model Stream.Spec Stream.Lemmas Stream.Proofs Stream.Pool.
+From Verif Require Cursor.Model.
 From Coq Require Import ZifyBool.
 
 (* where a handed-out slice lives: in the shifted part of the current buffer, or in a block of the chain *)
@@ -20,6 +21,7 @@ Record kinv (data : list Z) (base : Z) (chain : list nat) (T : Z) (s : stream) (
   k_dat : cdat c = data;
   k_st : cst c = base + sstart s;
   k_ps : cps c = base + spos s;
+  k_pv : cprev c = base + sprev s;
   k_start : 0 <= sstart s;
   k_b1 : cst c <= cps c;
   k_b2 : cps c <= chw c;
@@ -44,12 +46,12 @@ Lemma kinv_update data base chain T s c outs s1 c1 :
   kinv data base chain T s c outs ->
   sheap s1 = sheap s -> ssch s1 = ssch s -> serr s1 = serr s -> spool s1 = spool s -> sbuf s1 = sbuf s ->
   sstart s <= sstart s1 -> cdat c1 = cdat c ->
-  cst c1 = base + sstart s1 -> cps c1 = base + spos s1 -> cst c1 <= cps c1 -> cps c1 <= chw c1 ->
+  cst c1 = base + sstart s1 -> cps c1 = base + spos s1 -> cprev c1 = base + sprev s1 -> cst c1 <= cps c1 -> cps c1 <= chw c1 ->
   chw c1 <= base + slen (sbuf s) ->
   cfreed c1 = T + ppos (spool s) + sfree s1 -> 0 <= sfree s1 -> cfreed c <= cfreed c1 ->
   kinv data base chain T s1 c1 outs.
 Proof.
-  intros Kv E1 E2 E3 E4 E5 Hst Hd H1 H2 H3 H4 H5 H6 H7 H8. destruct Kv.
+  intros Kv E1 E2 E3 E4 E5 Hst Hd H1 H2 Hpv H3 H4 H5 H6 H7 H8. destruct Kv.
   constructor; rewrite ?E1, ?E4, ?E5; try assumption; try lia.
   - eapply inv_ext; [exact k_inv0|..]; assumption.
   - congruence.
@@ -153,6 +155,7 @@ Proof.
   - assumption.
   - assumption.
   - assumption.
+  - assumption.
   - exact P'.
   - rewrite Hcl. rewrite k_base0. rewrite (sumz_clens_split _ chain k). fold SS. lia.
   - rewrite Pp. fold SS. lia.
@@ -221,10 +224,11 @@ Lemma kinv_put data base chainF TF sF c c1 outs bsX sw h1 a2 d2 sch2 e2 sprev' :
                      (mkSl X d2) 0 (spos sF - sstart sF) sprev' 0 in
   inv data (base + sstart sF) s' ->
   cdat c1 = cdat c -> cst c1 = cst c -> cps c1 = cps c -> cfreed c1 = cfreed c ->
+  cprev c1 = base + sstart sF + sprev' ->
   cps c1 <= chw c1 -> chw c1 <= base + sstart sF + d2 ->
   kinv data (base + sstart sF) (chainF ++ [sw]) TF s' c1 outs.
 Proof.
-  intros Kv Hsf Hlen Hsame Hsw Hni Hidx X HX1 HX2 Hh1 Hh1b s' Inv' Hd Hst Hps Hfr Hb2 Hb3.
+  intros Kv Hsf Hlen Hsame Hsw Hni Hidx X HX1 HX2 Hh1 Hh1b s' Inv' Hd Hst Hps Hfr Hpv Hb2 Hb3.
   destruct Kv.
   set (old := mkSl (sid (sbuf sF)) (sstart sF)).
   set (bsF := blocks (spool sF)) in *.
@@ -248,6 +252,7 @@ Proof.
   - congruence.
   - lia.
   - lia.
+  - exact Hpv.
   - lia.
   - lia.
   - exact Hb2.
@@ -297,11 +302,11 @@ Qed.
 Lemma kinv_read data base chain T s c outs p b s' c1 :
   kinv data base chain T s c outs -> serr s = 0 -> slen (sbuf s) <= p ->
   stream_read s p = Some (b, s') ->
-  cdat c1 = cdat c -> cst c1 = cst c -> cps c1 = cps c -> cfreed c1 = cfreed c -> cps c1 <= chw c1 ->
+  cdat c1 = cdat c -> cst c1 = cst c -> cps c1 = cps c -> cfreed c1 = cfreed c -> cprev c1 = cprev c -> cps c1 <= chw c1 ->
   chw c1 <= Z.max (chw c) (Z.min (base + p + 1) (len data)) ->
   exists chain' T', kinv data (base + sstart s) chain' T' s' c1 outs.
 Proof.
-  intros Kv He Hp H Hd Hst Hps Hfr Hb2 Hb3.
+  intros Kv He Hp H Hd Hst Hps Hfr Hpv Hb2 Hb3.
   assert (Hss : 0 <= sstart s <= slen (sbuf s)).
   { destruct Kv. lia. }
   destruct (read_ok data base s p (k_inv _ _ _ _ _ _ _ Kv) He Hss Hp) as (s'' & ER & I' & N1 & N2 & N3 & N4 & N5).
@@ -323,6 +328,7 @@ Proof.
     + exact I'.
     + congruence.
     + lia.
+    + destruct Kv. lia.
     + destruct Kv. lia.
     + lia.
     + destruct Kv. lia.
@@ -347,6 +353,7 @@ Proof.
     + intros i Hi Hne. destruct (k_ids _ _ _ _ _ _ _ KF) as [_ I2]. apply I2; assumption.
     + intros id _. left. reflexivity.
     + rewrite Es' in I'. exact I'.
+    + destruct Kv. cbn [after_free sstart]. lia.
   - (* a fresh array *)
     subst h1 pl1 nb. change (sheap (after_free s)) with (sheap s) in *.
     exists (chainF ++ [length (blocks (spool (after_free s)))]), TF.
@@ -372,6 +379,7 @@ Proof.
     + intros id _. destruct (Nat.lt_ge_cases id (length (sheap s))) as [L|G]; [left; apply harr_app_l; exact L|right; exact G].
     + intros id Hid. apply harr_app_l. exact Hid.
     + rewrite HX. rewrite Es' in I'. exact I'.
+    + destruct Kv. cbn [after_free sstart]. lia.
 Qed.
 
 Definition is_shift (o : sop) : bool := match o with SShift => true | _ => false end.
@@ -382,11 +390,71 @@ Definition outs_after (outs : list handed) (s1 : stream) (c : scur) (o : sop) (u
   | None => outs
   end.
 
+Lemma kinv_Rel data base chain T s c outs : kinv data base chain T s c outs -> Rel data s c.
+Proof. intros Kv. destruct Kv. apply (Rel_intro data s c base); assumption. Qed.
+
+(* one Peek (possibly a refill) keeps the invariant and raises the high-water mark *)
+Lemma K_peek data s c outs i b t :
+  K data s c outs -> cst c <= cps c + i -> stream_peek s i = Some (b, t) ->
+  K data t (hwup c (cps c + i + 1)) outs.
+Proof.
+  intros (base & chain & T & Kv) G P.
+  pose proof Kv as Kv0. destruct Kv0.
+  pose proof (i_len _ _ _ k_inv0) as Ilen. pose proof (i_in _ _ _ k_inv0) as Iin.
+  unfold stream_peek in P.
+  destruct ((0 <=? spos s + i) && (spos s + i <? slen (sbuf s))) eqn:InB.
+  - b2p. destruct (peekz _ _); [|discriminate]. inversion P; subst t.
+    exists base, chain, T. apply (kinv_update _ _ _ _ s c); try reflexivity; try assumption; unfold hwup; cbn [cdat cst cps chw cprev cfreed]; try lia.
+  - assert (Hp : slen (sbuf s) <= spos s + i) by (apply andb_false_iff in InB; destruct InB; b2p; lia).
+    destruct (Z.eq_dec (serr s) 0) as [E0|En].
+    + destruct (kinv_read data base chain T s c outs (spos s + i) b t (hwup c (cps c + i + 1)) Kv E0 Hp P)
+        as (chain' & T' & K'); unfold hwup; cbn [cdat cst cps chw cprev cfreed]; try reflexivity; try lia.
+      { rewrite k_dat0. lia. }
+      exists (base + sstart s), chain', T'. exact K'.
+    + unfold stream_read in P. replace (serr s =? 0) with false in P by (symmetry; apply Z.eqb_neq; exact En).
+      cbn [negb] in P. inversion P; subst t.
+      pose proof (i_end _ _ _ k_inv0 En) as Hend.
+      exists base, chain, T. apply (kinv_update _ _ _ _ s c); try reflexivity; try assumption; unfold hwup; cbn [cdat cst cps chw cprev cfreed]; try lia.
+      rewrite k_dat0. lia.
+Qed.
+
+Lemma hwup_fields c q : cst (hwup c q) = cst c /\ cps (hwup c q) = cps c.
+Proof. split; reflexivity. Qed.
+
+(* PeekRune: as many Peeks as the length it reports *)
+Lemma K_peekrune data s c outs i rn m s1 :
+  K data s c outs -> cst c <= cps c + i -> stream_peek_rune s i = Some (rn, m, s1) ->
+  K data s1 (hwup c (cps c + i + m)) outs.
+Proof.
+  intros K0 G H. unfold stream_peek_rune in H.
+  destruct (stream_peek s i) as [[c0 s0]|] eqn:P0; [|discriminate]. cbn [option_bind] in H.
+  pose proof (K_peek _ _ _ _ _ _ _ K0 G P0) as K1.
+  destruct (c0 <? 192); [inversion H; subst; exact K1|].
+  destruct (stream_peek s0 (i + 1)) as [[c1 t1]|] eqn:P1; [|discriminate]. cbn [option_bind] in H.
+  assert (G1 : cst (hwup c (cps c + i + 1)) <= cps (hwup c (cps c + i + 1)) + (i + 1)) by (unfold hwup; cbn; lia).
+  pose proof (K_peek _ _ _ _ _ _ _ K1 G1 P1) as K2.
+  rewrite hwup_hwup in K2 by (unfold hwup; cbn; lia).
+  replace (cps (hwup c (cps c + i + 1)) + (i + 1) + 1) with (cps c + i + 2) in K2 by (unfold hwup; cbn; lia).
+  destruct (c0 <? 224); [inversion H; subst; exact K2|].
+  destruct (stream_peek t1 (i + 2)) as [[c2 t2]|] eqn:P2; [|discriminate]. cbn [option_bind] in H.
+  assert (G2 : cst (hwup c (cps c + i + 2)) <= cps (hwup c (cps c + i + 2)) + (i + 2)) by (unfold hwup; cbn; lia).
+  pose proof (K_peek _ _ _ _ _ _ _ K2 G2 P2) as K3.
+  rewrite hwup_hwup in K3 by (unfold hwup; cbn; lia).
+  replace (cps (hwup c (cps c + i + 2)) + (i + 2) + 1) with (cps c + i + 3) in K3 by (unfold hwup; cbn; lia).
+  destruct (c0 <? 240); [inversion H; subst; exact K3|].
+  destruct (stream_peek t2 (i + 3)) as [[c3 t3]|] eqn:P3; [|discriminate]. cbn [option_bind] in H.
+  assert (G3 : cst (hwup c (cps c + i + 3)) <= cps (hwup c (cps c + i + 3)) + (i + 3)) by (unfold hwup; cbn; lia).
+  pose proof (K_peek _ _ _ _ _ _ _ K3 G3 P3) as K4.
+  rewrite hwup_hwup in K4 by (unfold hwup; cbn; lia).
+  replace (cps (hwup c (cps c + i + 3)) + (i + 3) + 1) with (cps c + i + 4) in K4 by (unfold hwup; cbn; lia).
+  inversion H; subst; exact K4.
+Qed.
+
 Lemma K_step data s c outs o s1 obs u c1 obs' :
   K data s c outs -> sstep s o = Some (s1, obs, u) -> sspec_step c o = Some (c1, obs') ->
   K data s1 c1 (outs_after outs s1 c o u).
 Proof.
-  intros (base & chain & T & Kv) Hi Hs.
+  intros K0 Hi Hs. pose proof K0 as (base & chain & T & Kv).
   pose proof Kv as Kv0. destruct Kv0.
   pose proof (i_len _ _ _ k_inv0) as Ilen. pose proof (i_in _ _ _ k_inv0) as Iin.
   destruct o; cbn [sspec_step] in Hs; try discriminate; cbn [sstep] in Hi.
@@ -394,22 +462,20 @@ Proof.
     destruct (cst c <=? cps c + i) eqn:G; [|discriminate]. b2p. inversion Hs; subst c1 obs'. clear Hs.
     destruct (stream_peek s i) as [[b t]|] eqn:P; [|discriminate]. cbn [option_bind fst snd] in Hi.
     inversion Hi; subst s1 obs u. clear Hi. cbn [outs_after].
-    unfold stream_peek in P.
-    destruct ((0 <=? spos s + i) && (spos s + i <? slen (sbuf s))) eqn:InB.
-    + b2p. destruct (peekz _ _); [|discriminate]. inversion P; subst t.
-      exists base, chain, T. apply (kinv_update _ _ _ _ s c); try reflexivity; try assumption; cbn [cdat cst cps chw cfreed]; try lia.
-    + assert (Hp : slen (sbuf s) <= spos s + i) by (apply andb_false_iff in InB; destruct InB; b2p; lia).
-      destruct (Z.eq_dec (serr s) 0) as [E0|En].
-      * destruct (kinv_read data base chain T s c outs (spos s + i) b t
-                   (mkSC (cdat c) (cst c) (cps c) (Z.max (chw c) (Z.min (cps c + i + 1) (len (cdat c)))) (cprev c) (cfreed c))
-                   Kv E0 Hp P) as (chain' & T' & K'); cbn [cdat cst cps chw cfreed]; try reflexivity; try lia.
-        { rewrite k_dat0. lia. }
-        exists (base + sstart s), chain', T'. exact K'.
-      * unfold stream_read in P. replace (serr s =? 0) with false in P by (symmetry; apply Z.eqb_neq; exact En).
-        cbn [negb] in P. inversion P; subst t.
-        pose proof (i_end _ _ _ k_inv0 En) as Hend.
-        exists base, chain, T. apply (kinv_update _ _ _ _ s c); try reflexivity; try assumption; cbn [cdat cst cps chw cfreed]; try lia.
-        rewrite k_dat0. lia.
+    exact (K_peek _ _ _ _ _ _ _ K0 G P).
+  - (* PeekRune *)
+    destruct (stream_peek_rune s i) as [[[rn m] t]|] eqn:P; [|discriminate]. cbn [option_bind] in Hi.
+    inversion Hi; subst s1 obs u. clear Hi. cbn [outs_after].
+    (* the specification's length is the implementation's *)
+    destruct (peekrune_refines data s c i c1 obs' (kinv_Rel _ _ _ _ _ _ _ Kv)) as (r & k & t' & E & Eo & _).
+    { cbn [sspec_step]. exact Hs. }
+    rewrite P in E. inversion E; subst r k t'. clear E.
+    destruct (cst c <=? cps c + i) eqn:G; [|discriminate]. b2p.
+    assert (Hc1 : c1 = hwup c (cps c + i + m)).
+    { destruct (len (cdat c) <=? cps c + i).
+      - inversion Hs as [[Hc Ho]]. rewrite Eo in Ho. inversion Ho; subst m. reflexivity.
+      - destruct (Cursor.Model.utf8_decode _) as [[r k]|]; [|discriminate]. inversion Hs as [[Hc Ho]]. rewrite Eo in Ho. inversion Ho; subst. reflexivity. }
+    rewrite Hc1. exact (K_peekrune _ _ _ _ _ _ _ _ K0 G P).
   - (* Move *)
     destruct ((cst c <=? cps c + n) && (cps c + n <=? chw c)) eqn:G; [|discriminate]. b2p.
     inversion Hs; subst c1 obs'. inversion Hi; subst s1 obs u. cbn [outs_after].
